@@ -52,6 +52,24 @@ def _expire_weak_always(fn):
     return not early
 
 
+def _tryget_falls_through(fn):
+    """does tryGet go on to the strong cache when the weak reference it finds is dead?"""
+    body = strip_doc(fn.body)
+    first = None
+    for st in body:
+        if isinstance(st, ast.If) and ast.unparse(st.test) == 'value':
+            first = st
+            break
+    if first is None:
+        raise ExtractError('tryGet: `if value:` not found')
+    src = [ast.unparse(x) for x in first.body]
+    if src == ['return value()']:
+        return False
+    if src == ['obj = value()', 'if obj is not None:\n    return obj']:
+        return True
+    raise ExtractError('tryGet: unknown handling of the weak entry: %r' % src)
+
+
 def extract(repo):
     tree = parse(repo, 'sqlobject/cache.py')
     cf = find_class(tree, 'CacheFactory')
@@ -61,6 +79,7 @@ def extract(repo):
     if c1 != c2:
         raise ExtractError('get and created trigger cull differently')
     ew = _expire_weak_always(find_func(cf, 'expire'))
+    tg = _tryget_falls_through(find_func(cf, 'tryGet'))
     b = lambda x: 'true' if x else 'false'
     lines = [HEADER % 'cache', '', 'namespace SqlObjVerif.Extracted.Cache', '',
              '/-- default of `CacheFactory.__init__(cullFrequency=…)` -/',
@@ -73,5 +92,7 @@ def extract(repo):
              'def cullTriggerStrict : Bool := %s' % b(c1), '',
              '/-- `expire(id)` deletes the weak entry also when strong caching is off (no early return) -/',
              'def expireDropsWeakAlways : Bool := %s' % b(ew), '',
+             '/-- `tryGet(id)` looks in the strong cache when the weak reference it finds is dead -/',
+             'def tryGetFallsThrough : Bool := %s' % b(tg), '',
              'end SqlObjVerif.Extracted.Cache']
     return '\n'.join(lines) + '\n'
